@@ -19,7 +19,7 @@ def sbool(e):
     """z3 Bool -> python bool when decided by simplification, else SymBool."""
     if isinstance(e, bool):
         return e
-    e = z3.simplify(e)
+    e = core.simplify(e)
     if z3.is_true(e):
         return True
     if z3.is_false(e):
